@@ -123,7 +123,7 @@ MUTANTS = [
      "        yield self\n        self.__transport.pop_headers(headers)", "exceptional exit leaks headers"),
     ("c19-no-close-on-error", "C19", J, "            # a strange state, so we clear it.\n            self.close()\n            raise", "            # a strange state, so we clear it.\n            raise",
      "broken connection stays cached"),
-    ("c19-no-drain", "C19", J, "        if response.getheader(\"content-length\", 0):\n            response.read()\n", "", "non-200 body left on the keep-alive connection"),
+    ("c19-no-drain", "C19", J, "        if response.getheader(\"content-length\", 0):\n            response.read()\n", "", "non-200 body left on the keep-alive connection: the NEXT call fails once (BadStatusLine), which the property allows (at most one further failing call) - control"),
     ("c19-2xx-accepted", "C19", J, "            if response.status == 200:", "            if response.status < 300:", "201/202 replies parsed as results"),
     ("c20-ignore-not-propagated", "C20", K, "                attrs[attr_name] = dump(\n                    attr_value,\n                    serialize_method,\n                    ignore_attribute,\n                    ignore,\n                    config,\n                )",
      "                attrs[attr_name] = dump(\n                    attr_value,\n                    serialize_method,\n                    ignore_attribute,\n                    None,\n                    config,\n                )", "ignore argument not applied to nested beans"),
@@ -140,7 +140,7 @@ MUTANTS = [
 
 # controls: changes that do NOT break the property (equivalent or unobservable with the stdlib JSON backend): a check
 # that fires on one of these would be raising a false alarm
-CONTROLS = {"c01-kwargs-as-list", "c11-stop-without-sentinels", "c11-restart-keeps-stop-flag",
+CONTROLS = {"c01-kwargs-as-list", "c11-stop-without-sentinels", "c11-restart-keeps-stop-flag", "c19-no-drain",
             "c12-request-enqueued-twice", "c17-length-from-text"}
 
 
